@@ -248,7 +248,7 @@ where
             h.input((k.len() as u64).to_be_bytes());
             h.input(&k);
             h.input((v.len() as u64).to_be_bytes());
-            h.input(v.as_ref().as_slice());
+            h.input(&v[..]);
         }
     }
     let d = h.finalize();
